@@ -14,6 +14,8 @@ SPACES = {
     "k4only": dict(nts=("S", "A"), ts=("a", "b"), r=2, k=4, kmin=4),
     "r3": dict(nts=("S", "A"), ts=("a", "b"), r=3, k=3),
     "n3": dict(nts=("S", "A", "B"), ts=("a", "b"), r=2, k=4),
+    # three nonterminals over one terminal: nullable-heavy, small, complete
+    "n3a": dict(nts=("S", "A", "B"), ts=("a",), r=2, k=4),
 }
 CHUNK = 40
 
